@@ -29,13 +29,13 @@ CTX_D = {'macros': [['p', S('m', 'm0')], ['q', S('m0')], ['pm', S(['m0', '+'], '
 # \verb-like macros of the legacy verbatim parser WITH leading standard arguments (documented keyword verbatim_argspec):
 # not expressible in the Lean context type, exercised by the oracles only
 CTX_E = {'macros': [['li', ['LVA', '[']], ['mi', ['LVA', '{']], ['lm', ['LVA', '[{']], ['verb', ['LV']], ['z', S()]],
-         'envs': [['en', S('o1'), False]], 'specials': [['~', S()]], 'um': S(), 'ue': [S(), False]}
+         'envs': [['en', S('o1'), False], ['vb', ['VB'], False]], 'specials': [['~', S()]], 'um': S(), 'ue': [S(), False]}
 # a user hook that raises a position-less parse error (tolerant mode must swallow it like any other parse error); oracle only
 CTX_F = {'macros': [['ref', ['SH', [['m', '']]]], ['so', ['SH', [['o1', ''], ['m', '']]]], ['m', S('m')], ['z', S()]],
          'envs': [['en', ['SH', [['m', '']]], False]], 'specials': [['~', S()]], 'um': S(), 'ue': [S(), False]}
 CONTEXTS = {'A': CTX_A, 'B': CTX_B, 'C': CTX_C, 'D': CTX_D, 'E': CTX_E, 'F': CTX_F, 'default': 'default'}
 ATOMS_F = ['a', ' ', '\n', '{}', '{x}', '[]', '[o]', '{', '}', '$', '~', '\\ref', '\\so', '\\m', '\\z', '\\begin{en}', '\\end{en}', '%c\n']
-ATOMS_E = ['a', ' ', '\n', '{x}', '[o]', '|', '|c|', '!v!', '{', '}', '[', '$', '%c\n', '~', '\\li', '\\mi', '\\lm', '\\verb', '\\z', '+a[1]+', '\\begin{en}', '\\end{en}']
+ATOMS_E = ['a', ' ', '\n', '{x}', '[o]', '|', '|c|', '!v!', '{', '}', '[', '$', '%c\n', '~', '\\li', '\\mi', '\\lm', '\\verb', '\\z', '+a[1]+', '\\begin{en}', '\\end{en}', '\\begin{vb}', '\\end{vb}', '\\end{vb']
 ATOMS_D = ['a', ' ', '\n', '{', '}', '[', '$', '%c\n', '~', '!', '\\p', '\\q', '\\pm', '\\z', '\\begin{en}', '\\end{en}', '\\', '\\(', '\\)', '\\begin', '\t']
 
 ATOMS_DEFAULT = ['a', ' ', '\n', '{', '}', '[', ']', '$', '%', '~', '\\', '\\(', '\\)', '\\[', '\\]', '\\\\',
